@@ -540,6 +540,10 @@ impl Tcp {
                 // If bound, queue the syn; else we drop the syn triggering
                 // connection refused on the client.
                 if let Some(b) = self.binds.get_mut(&dst.port()) {
+                    // A connector that gave up no longer occupies a slot; accept
+                    // would skip it anyway.
+                    b.deque.retain(|(syn, _)| !syn.ack.is_closed());
+
                     if b.deque.len() == self.server_socket_capacity {
                         panic!("{dst} server socket buffer full");
                     }
